@@ -470,6 +470,7 @@ pub fn boundary_strategy() -> impl Strategy<Value = BoundaryCase> {
 }
 
 pub fn run(ctx: &Ctx, report: &mut Report) {
+    report.push(run_proptest(ctx, "many-keys", ctx.cases(32, 800), 20, many_keys_strategy, exec_many_keys));
     report.push(run_proptest(ctx, "generated-states", ctx.cases(6_000, 150_000), 300, case_strategy, exec_mtu));
     report.push(run_proptest(ctx, "boundary-directed", ctx.cases(2_500, 60_000), 200, boundary_strategy, exec_boundary));
 }
@@ -477,6 +478,7 @@ pub fn run(ctx: &Ctx, report: &mut Report) {
 pub fn replay(ctx: &Ctx, sub: &str, case: &serde_json::Value) -> SubResult {
     match sub {
         "boundary-directed" => replay_case::<BoundaryCase, _>(ctx, sub, case, exec_boundary),
+        "many-keys" => replay_case::<ManyKeysCase, _>(ctx, sub, case, exec_many_keys),
         _ => replay_case::<MtuCase, _>(ctx, sub, case, exec_mtu),
     }
 }
@@ -595,4 +597,59 @@ pub fn run_max_value(ctx: &Ctx, report: &mut Report) {
 
 pub fn replay_max_value(ctx: &Ctx, sub: &str, case: &serde_json::Value) -> SubResult {
     replay_case::<MaxValueCase, _>(ctx, sub, case, exec_max_value)
+}
+
+// ------------------------------------------------------------------------------------------
+// C07 sub-check: a member with a very large number of tiny key-values (the reply is cut by the
+// budget after thousands of entries); an early tombstone whose key sorts last must not be skipped.
+
+#[derive(Clone, Debug, Serialize, Deserialize)]
+pub struct ManyKeysCase {
+    /// thousands of keys (1..=100)
+    pub thousands: u8,
+    /// version (1-based position) of the entry that is deleted afterwards; its key sorts last
+    pub early_delete: u8,
+    pub peer_knows: u8,
+}
+
+pub fn exec_many_keys(case: &ManyKeysCase, tally: &mut Tally) -> Result<(), Failure> {
+    with_paused_runtime(async {
+        let n = (case.thousands as usize % 100 + 1) * 1000;
+        let fd = FdCfg::default();
+        let self_id = simple_id("self", 1, 9000);
+        let mut node = build_node(&self_id, "cluster", std::time::Duration::from_secs(3600), &fd, false, 0).chitchat;
+        {
+            let ns = node.self_node_state();
+            ns.set("zzz-sorts-last", "old");
+            let del_at = (case.early_delete as usize % 50) + 1;
+            for i in 0..n {
+                ns.set(format!("k{i:06}"), "v");
+                if i == del_at {
+                    ns.delete("zzz-sorts-last");
+                }
+            }
+        }
+        let copies = all_copies(&node);
+        let digest = vec![WNodeDigest { id: WId::from_real(&self_id), heartbeat: 1, last_gc: 0, max_version: (case.peer_knows % 3) as u64 }];
+        let msg = synack_message(&digest)?;
+        let reply = match guard(|| node.verif_process_message(msg)) {
+            Ok(Some(r)) => r,
+            Ok(None) => return vio("C07/no-reply", "no reply".into()),
+            Err(p) => return vio(&format!("C07/{}", p.signature()), format!("processing panicked: {}", p.describe())),
+        };
+        let _ = copies;
+        let copies2 = all_copies(&node);
+        let facts = check_reply(&reply, MAX_DATAGRAM, &copies2, &digest, &[], tally, &format!("{n} keys"))?;
+        tally.max("keys", n as u64);
+        if facts.truncated {
+            tally.label("truncated_after_thousands_of_entries");
+        }
+        tally.nontrivial(str_hash(&format!("{case:?}")));
+        tally.sample(|| serde_json::json!({"keys": n, "truncated": facts.truncated}));
+        Ok(())
+    })
+}
+
+pub fn many_keys_strategy() -> impl Strategy<Value = ManyKeysCase> {
+    (prop_oneof![2 => 0u8..30, 2 => 60u8..100, 1 => Just(99u8)], any::<u8>(), any::<u8>()).prop_map(|(thousands, early_delete, peer_knows)| ManyKeysCase { thousands, early_delete, peer_knows })
 }
